@@ -194,3 +194,17 @@ Print Assumptions C06_order.
 Print Assumptions C06_line_is_sum_of_all_dated_fractions.
 Print Assumptions C06_every_dated_fraction_counts.
 Print Assumptions C06_to_date_refuted.
+
+(** Source tie (regenerated on every run).  [yearly_list_gen] (Model/ComputedGen.v) is the yearly summary with every choice the
+    source makes taken from the tables the translator reads from computed_data.py (Model/GeneratedTie.v): the set
+    `_create_yearly_gain_loss_list` is handed (unfiltered), its to-date test and that it `break`s, the key tuple
+    (event year, asset, type, long/short), the attribute accumulated into each amount, the sort, and the bound
+    `y.year >= from_date.year` of `_filter_yearly_gain_loss_by_year`.  It is the hand-written [yearly_list] the theorems above
+    are about; an edit that drops the to-date test, filters by another bound, summarises the filtered set or accumulates
+    another attribute makes this theorem stop compiling (Proofs/ComputedGenYearly.v). *)
+From RP2V Require Import Model.GeneratedTie Model.ComputedGen Proofs.ComputedGenYearly.
+Theorem C06_source_tie_yearly_summary :
+  forall (period from_day to_day : Z) (gls : list gl),
+    yearly_list_gen period from_day to_day gls = yearly_list period to_day (year_of_day from_day) gls.
+Proof. exact yearly_list_gen_agrees. Qed.
+Print Assumptions C06_source_tie_yearly_summary.
